@@ -31,7 +31,7 @@ AXES = ["following", "preceding", "child", "descendant", "descendant-or-self", "
 
 # ------------------------------------------------------------------ documents
 def gendoc(rng, depth=0, dflt=None):
-    name = rng.choice(["a", "b", "c"])
+    name = rng.choice(["a", "b", "c"] * 4 + ["x-y", "a.b", "n_1", "é"])
     pfx = rng.choice(["", "", "p:"]) if depth else ""
     if depth == 0:
         # a third of the documents declare a default namespace on the root (so that context nodes are namespaced
@@ -103,7 +103,7 @@ def genpred_bool(rng, d):
 
 def genstep(rng, axes):
     ax = rng.choice(axes + ["", "", "", ""])
-    nt = rng.choice(["a", "b", "c", "*", "*", "*", "*", "p:a", "p:*", "text()", "comment()", "processing-instruction()",
+    nt = rng.choice(["a", "b", "c", "*", "*", "*", "*", "p:a", "p:*", "x-y", "a.b", "n_1", "é", "p:x-y", "svg:a", "svg:*", "text()", "comment()", "processing-instruction()",
                      'processing-instruction("pi")', "node()", "node()"])
     s = (ax + "::" if ax else "") + nt
     for _ in range(rng.choice([0, 0, 0, 0, 1, 1, 2])):
@@ -282,7 +282,9 @@ def gen_case(rng):
     xml = gendoc(rng)
     return {"xml": xml, "ctx": 0 if rng.random() < 0.5 else rng.randrange(0, 1000), "expr": genexpr(rng) if rng.random() < 0.8 else gen_safe(rng),
             "ns": [["p", "u"]] if rng.random() < 0.6 else rng.choice([None, None, [["p", "u"], ["", "d"]], [["p", "u"], ["", "d"]], [["q", "u"]], [], [],
-                                                                 [["p", "u"], ["", "u"]]])}
+                                                                 [["p", "u"], ["", "u"]],
+                                                                 # the name of one of the library's common namespaces, bound by the caller
+                                                                 [["p", "u"], ["svg", "u"]], [["p", "u"], ["svg", "u"]], [["svg", "u"]]])}
 
 
 def gen_safe(rng):
